@@ -265,7 +265,8 @@ fn oracle_case(p: &Prep, helper_obj: &Path, verbose: bool) -> OracleOut {
     if n_callable == 0 {
         return o;
     }
-    let includes: String = case.headers.iter().enumerate().filter(|(i, _)| !p.contents_headers.contains(i)).map(|(_, (n, _))| format!("#include \"{}\"\n", p.dir.join(n).display())).collect();
+    // the direct caller sees every input header: files by #include, in-memory headers as their text
+    let includes: String = case.headers.iter().enumerate().map(|(i, (n, t))| if p.contents_headers.contains(&i) { format!("{t}\n") } else { format!("#include \"{}\"\n", p.dir.join(n).display()) }).collect();
     let csrc = p.dir.join("c_caller.c");
     std::fs::write(&csrc, c_caller(case, &includes, &callable_fn)).unwrap();
     let cexe = p.dir.join("c_caller");
